@@ -15,6 +15,7 @@
     Outside any Gallina statement: goroutine scheduling inside CometBFT/IAVL, hardware float
     differences across architectures, the Go map implementation itself. *)
 From Irismod Require Import Determinism.Check Determinism.Proofs Determinism.Model.
+From Irismod Require Record.Model.
 Close Scope string_scope.
 
 (** (a0) [reach] is complete — for ALL graphs, root lists and nodes (induction on paths and
@@ -93,6 +94,23 @@ Example checker_discriminates :
   check_all (of_adj toy_adj) [1%positive] toy_sources toy_allow = false
   /\ check_all (of_adj [(1, [2]); (2, [3]); (5, [6])]%positive) [1%positive] toy_sources toy_allow = true.
 Proof. split; [exact toy_rejected|exact toy_accepted_without_clock_edge]. Qed.
+
+(** [run_functional] instantiated with a module model of this development (record, C19): block =
+    list of model steps, results = the (id, record) pairs created, export = digest = the whole model
+    state, save/load = identity.  Any two schedules give the same observations and exports. *)
+Definition record_apply_block (s : Record.Model.state) (b : list Record.Model.step)
+  : Record.Model.state * list (Record.Model.rid * Record.Model.rec) :=
+  fold_left (fun (acc : Record.Model.state * list (Record.Model.rid * Record.Model.rec)) st =>
+               let '(s', r) := Record.Model.exec_step (fst acc) st in (s', snd acc ++ r)) b (s, []).
+
+Example run_functional_on_record_model :
+  forall (sch1 sch2 : schedule) (bs : list (list Record.Model.step)),
+  exists obs ex,
+    replica _ _ _ _ record_apply_block (fun s => s) (fun s => s) (fun s => s) (fun s => Some s)
+            sch1 Record.Model.init bs = Some (obs, repeat ex (S (exports sch1)))
+    /\ replica _ _ _ _ record_apply_block (fun s => s) (fun s => s) (fun s => s) (fun s => Some s)
+               sch2 Record.Model.init bs = Some (obs, repeat ex (S (exports sch2))).
+Proof. intros. apply run_functional. reflexivity. Qed.
 
 Example run_functional_hypothesis_satisfiable :
   exists (save : nat -> nat) (load : nat -> option nat), forall s, load (save s) = Some s.
